@@ -311,12 +311,19 @@ def greedy_run(case):
                 pass
     kmod.find_best_split = spy
     try:
-        model.fit(X, Kmat)
+        if params.get("max_leaves") == 3 or (params.get("max_features") or 0) >= 2:
+            lab_fp = model.fit_predict(X, Kmat)          # the other entry point: same training on the same kernel, labels returned
+        else:
+            model.fit(X, Kmat)
+            lab_fp = None
     finally:
         kmod.find_best_split = real
     ctx = {"X": X, "kernel": kernel_kind, "kernel_matrix": Kmat, "params": params}
     stats = collections.Counter()
     vs, nontrivial = [], 0
+    if lab_fp is not None and not np.array_equal(lab_fp, model.labels_):
+        vs.append(violation("labels_differ_from_applied_splits", dict(ctx, fit_predict_returned=lab_fp, labels_=model.labels_), n_clusters=int(len(np.unique(model.labels_))),
+                            K_max=params.get("max_clusters", 3), shadow=False))
     # reference bookkeeping: the state handed to find_best_split must be the one obtained by applying the previous
     # returned splits with the documented update rule (left child keeps the leaf id, right child gets a new id)
     max_leaves_p = params.get("max_leaves") or n
